@@ -160,3 +160,49 @@ Proof.
            (fun l Hl _ => proj2 (chk_C05_sound n Hchk) l Hl) xb yb ab ox oy Hxy).
 Qed.
 Print Assumptions C04_hw_local_to_local.
+
+(* Part 6: ANY ports.  For every XY description over one auto-connected m x n array, on every physical network: an
+   interface on any port of the array (local, or a West / East / South / North boundary port) reaches an interface on
+   any port -- the flit carries the destination's coordinate, which for a boundary port is the cell BEHIND that port,
+   outside the array -- whenever dimension-ordered routing can serve the pair: the port the flit enters on is
+   compatible with its path (`inp_okP`: no loop-back, no turn from Y to X; e.g. a flit from a North / South boundary
+   interface can only stay in its column) and a destination on an East / West port lies in the row the flit enters
+   (`row_ok`).  This covers the boundary memories of the shipped mesh examples (HBM channels on the West side: every
+   cluster reaches the channel of its own row, every channel reaches every cluster). *)
+Theorem C04_hw_any_ports :
+  forall d g c rd mm nn sp ri n nt xb yb ab ox oy,
+    build d = Ok g -> compile d g = Ok c -> d_algo d = XY ->
+    d_rts d = [rd] -> rt_array rd = Some [mm; nn] -> rt_tree rd = None -> rt_auto rd = true ->
+    net_ok d nt -> gen_routing_info sp c = Ok ri -> emit c ri = Ok n -> chk_C05 n = [] ->
+    ri_xy ri = Some (xb, (yb, (ab, (ox, oy)))) ->
+    forall s0 t a b ks tx ty kd ddx ddy, In s0 (c_nis c) -> In t (c_nis c) ->
+      on_port g rd mm nn nt s0 a b ks -> on_port g rd mm nn nt t tx ty kd -> to_coords kd = Ok (ddx, ddy) ->
+      row_ok ty ddx b -> inp_okP tx ty ddx ddy a b (Z.to_nat ks) ->
+      let h := HXY (tx + ddx - ox) (ty + ddy - oy) 0 in
+      t_out (send n nt (emit_ni d (ri_offset ri) s0) h) = Delivered (cn_name t) h.
+Proof.
+  intros d g c rd mm nn sp ri n nt xb yb ab ox oy Hb Hc Ha Hrts Harr Htree Hauto Hnt Hri He Hchk Hxy.
+  exact (xy_send_ports d g c rd mm nn Hb Hc Ha Hrts Harr Htree Hauto sp ri n nt Hnt Hri He
+           (fun l Hl _ => proj2 (chk_C05_sound n Hchk) l Hl) xb yb ab ox oy Hxy).
+Qed.
+Print Assumptions C04_hw_any_ports.
+
+(* non-vacuity on the 2x2 mesh with a West boundary row: every cluster interface reaches the West memory of ITS row and
+   every West memory reaches every cluster (evaluated on the hardware model), while a cluster of the other row does
+   not reach that memory -- dimension-ordered routing cannot serve that pair *)
+From FV Require Import Paths Examples.
+Example C04_boundary_nonvacuous :
+  match (do g <- build (ex_mesh XY); do c <- compile (ex_mesh XY) g; do ri <- gen_routing_info sp_nx c; do n <- emit c ri; Ok (c, (ri, n))) with
+  | Ok (c, (ri, n)) =>
+      let hdr t := hdr_of_id n (Netlist.ni_id (emit_ni (ex_mesh XY) (ri_offset ri) t)) in
+      let reaches s t := match t_out (send n Req (emit_ni (ex_mesh XY) (ri_offset ri) s) (hdr t)) with
+                         | Delivered u _ => str_eqb u (cn_name t) | _ => false end in
+      let find nm := find (fun x => str_eqb (cn_name x) nm) (c_nis c) in
+      match find "cluster_ni_0_0", find "cluster_ni_1_0", find "cluster_ni_1_1", find "hbm_ni_0", find "hbm_ni_1" with
+      | Some c00, Some c10, Some c11, Some h0, Some h1 =>
+          reaches c00 h0 && reaches c10 h0 && reaches c11 h1 && reaches h0 c11 && reaches h1 c10 && negb (reaches c10 h1)
+      | _, _, _, _, _ => false
+      end
+  | Err _ => false
+  end = true.
+Proof. vm_compute. reflexivity. Qed.
